@@ -1016,15 +1016,14 @@ def vcf_case(ctx, sc, seed, ns, nr, ci, li):
 def run_vcf(ctx, sc, spec):
     _, ns, nr, mode, part, nparts = spec
     ctx.bounds.update({"vcf_max_samples": 3, "vcf_max_records": 3, "vcf_calls": CALLS, "vcf_contigs": 2,
-                       "vcf_enumeration": "calls x layouts full product up to 2x2 (+3x2 in thorough), all call matrices with "
-                                          "rotating/sub-sampled layouts for 2x3, 3x2(quick), 3x3"})
+                       "vcf_enumeration": "calls x layouts full product for 1x1,1x2,2x1,1x3,3x1,2x2 (+3x2 in thorough); all call "
+                                          "matrices with rotating (quick) / 3-of-12 sub-sampled (thorough) layouts for 2x3, "
+                                          "rotating layouts for 3x2 (quick) and 3x3"})
     for k, (ci, li) in enumerate(vcf_cases(ns, nr, mode)):
         if k % nparts != part:
             continue
         vcf_case(ctx, sc, ctx.seed, ns, nr, ci, li)
     ctx.flag(f"vcf:{ns}x{nr}")
-    if mode == "rot-prefix5":
-        ctx.capped.append("vcf 3x3: quick tier enumerates the 4^5 call prefixes only (thorough: all 4^9)")
 
 
 # ----------------------------------------------------------------------------
@@ -1034,10 +1033,8 @@ def finalize(ctx, tier, seed):
         return
     ctx.bounds["classes_not_constructed"] = NOT_CONSTRUCTED
     ctx.bounds["classes"] = {"hdf5": len(HDF5_CLASSES), "table": len(TABLE_CLASSES), "copy": len(ALL_CLASSES)}
-    # quick tier cap is a declared bound of the tier, not a truncation of the stated quick scope
-    if tier == "quick":
-        ctx.capped[:] = [c for c in ctx.capped if not c.startswith("vcf 3x3")]
-        ctx.bounds["vcf_3x3_quick"] = "4^5 call prefixes x rotating layouts"
+    ctx.bounds["vcf_3x3"] = ("all 4^9 call matrices x rotating layouts" if tier == "thorough"
+                             else "the 4^5 call matrices that vary the first five cells x rotating layouts")
     for name in HDF5_CLASSES:
         assert f"hdf5:{name}" in ctx.flags, name
         assert f"overwrite:{name}" in ctx.flags, name
